@@ -314,7 +314,7 @@ int main(int argc, char** argv) {
          for (int ds = 0; ds < 3; ++ds) for (int f = 0; f < NFEAT; ++f) { a.desc = ds; a.feat = f; b.desc = (ds + 1) % 3; expand({a, b}, displays, ds == 0 && f == 0); }
       } else {
          unsigned k = unsigned(vf::current_case()); a.desc = k % 3; a.feat = (k / 3) % NFEAT; b.desc = (k / 12) % 3; b.feat = (k / 36) % 3;
-         expand({a, b}, displays_thin, (k % 4) == 0);
+         expand({a, b}, displays, (k % 4) == 0);
       }
       if (vf::current_case() % 997 == 0) vf::sample(arg_text({a, b}) + " x display settings");
       if (vf::deadline_hit()) break;
